@@ -29,7 +29,7 @@ ASSUMPTIONS = ['returned coefficients are dyadic rationals read from the raw tup
                'fourier envelope: planted degree M <= N <= 10, |coefficients| <= 8, 2 pi N max(|a|,|b|)/(b-a) <= 32 (size of the arguments of cos/sin, whose rounding is amplified by their magnitude); tolerance 2^(10-p) * max(1, max|coefficient|) per coefficient',
                'fourierval tolerance from first-order error analysis: 2^(4-p) * sum_n (|c_n|+|s_n|) (1 + |m n x|)',
                'the reference release (mpmath 1.3.0) at 2p+200 bits evaluates sin/cos/exp/pi with relative error < 2^-(2p+100)']
-LEVEL_TEXT = ('exploration: ~3*10^3 (quick) / ~3*10^4 (thorough) generated fits / series on the real code; every returned polynomial compared '
+LEVEL_TEXT = ('exploration: ~2.7*10^3 (quick) / ~1.7*10^4 (thorough) generated fits / series on the real code; every returned polynomial compared '
               'exactly with the fitted polynomial on ~100 points, every Fourier coefficient with its planted value')
 LEVEL_NOTE = 'functions, intervals and degrees not generated are not covered; sup norms are sampled (factor 2 allowance)'
 TECHNIQUE = 'runtime result monitor: exact rational re-evaluation of returned approximations against planted exact objects'
@@ -37,7 +37,7 @@ SHARD_TIMEOUT = {'quick': 1800, 'thorough': 7200}
 
 NSHARDS = 16
 COUNTS = {'quick': {'chebpoly': 70, 'chebsmooth': 24, 'fourier': 20, 'fourierval': 80},
-          'thorough': {'chebpoly': 700, 'chebsmooth': 240, 'fourier': 200, 'fourierval': 800}}
+          'thorough': {'chebpoly': 400, 'chebsmooth': 130, 'fourier': 110, 'fourierval': 450}}
 PRECS = [30, 40, 53, 64, 80, 100, 113, 150, 200]
 
 
